@@ -24,6 +24,7 @@ package evalfilter
 //@   ensures @C09 prepare.context: err == nil ==> e.machine != nil && e.machine.context === e.context
 //@   ensures @C20 prepare.machine: err == nil ==> machineOK(e)
 //@   ensures @C18 prepare.fits: err == nil ==> len(e.instructions) <= 65535 && len(e.constants) <= 65536
+//@   ensures @C08 @C18 prepare.failed.restores: err != nil ==> e.instructions === old(e.instructions) && e.constants === old(e.constants) && e.functions == old(e.functions) && e.machine == old(e.machine)
 //@   panics maybe
 
 //@ func New(script string) (result *Eval)
